@@ -47,7 +47,7 @@ class C15(core.Check):
                    'absolute scratch-directory paths printed by the listing are normalised before comparison')
     chunk = 2500
     crosscheck_every = {'quick': 200, 'thorough': 200}
-    required_buckets = {b: 3 for b in ['prog:overlapping-vocabulary', 'prog:tilde-directory', 'var:hashseed', 'var:env', 'var:cwd', 'var:include-order', 'var:include-duplicate',
+    required_buckets = {b: 3 for b in ['prog:overlapping-vocabulary', 'prog:command-line-symbol-given-twice', 'prog:tilde-directory', 'var:hashseed', 'var:env', 'var:cwd', 'var:include-order', 'var:include-duplicate',
                                        'var:include-symlink', 'prog:generated-isa', 'prog:multi-file', 'prog:example',
                                        'include-dirs>=3', 'ambiguous-include-name']}
 
@@ -78,7 +78,7 @@ class C15(core.Check):
                                                 'symlinks': {'alias_dir': inc[0].split('/')[0] if '/' not in inc[0] else inc[0]}}))
         return out
 
-    def build_runs(self, files, main, isa_name, dirs, tags, heavy=False):
+    def build_runs(self, files, main, isa_name, dirs, tags, heavy=False, extra_argv=()):
         runs, labels = [], []
         # decoys: files carrying the names of the included files, with other contents, in the directories that serve as
         # working directory in the cwd variation (they are on no search path, so they must never be picked up)
@@ -94,7 +94,7 @@ class C15(core.Check):
                 absolute = ov.get('absolute')
                 pre = '{SCRATCH}/' if absolute else ''
                 argv = ['compile', '-c', pre + isa_name, pre + main, '-o', pre + 'out.bin', '-p', '-t', f,
-                        '--pretty-print-output', pre + 'pp.txt'] + ov['inc']
+                        '--pretty-print-output', pre + 'pp.txt'] + ov['inc'] + list(extra_argv)
                 spec = {'files': files, 'argv': argv, 'hashseed': ov['hashseed'], 'probes': ['setorder'],
                         'dirs': ['elsewhere/deeper'], 'cpu_s': 60, 'wall_s': 120}
                 if 'env' in ov:
@@ -168,6 +168,18 @@ class C15(core.Check):
                 src.append(mns[a_] + (' 7' if a_ % 2 else '') + ' ' + mns[b_] + (' 9' if b_ % 2 else ''))
             fn, text = isamod.render_isa(isa, 'json')
             yield self.build_runs({fn: text, 'p.asm': '\n'.join(src) + '\n'}, 'p.asm', fn, ['.'], {'prog:overlapping-vocabulary'})
+        # symbols given on the command line, several of them and one of them more than once: whatever the tool makes of
+        # that, it makes the same of it in every run
+        isa = gen_prog.layout_isa(16)
+        fn, text = isamod.render_isa(isa, 'json')
+        src_d = '#if MODE == 1\n.byte $11\n#elif MODE == 2\n.byte $22\n#else\n.byte $33\n#endif\n.byte MODE, LVL\n#ifdef EXTRA\n.byte EXTRA\n#endif\n'
+        for k, dargs in enumerate([['MODE=1', 'LVL=2'], ['LVL=2', 'MODE=1', 'EXTRA=7'], ['MODE=1', 'MODE=2', 'LVL=3'], ['MODE=2', 'MODE=1', 'LVL=3'],
+                                   ['MODE=1', 'LVL=3', 'MODE=1'], ['MODE=2', 'LVL=4', 'EXTRA', 'EXTRA=5'], ['LVL=1', 'LVL=2', 'LVL=3', 'MODE=3']]):
+            extra = list(itertools.chain.from_iterable(('-D', a_) for a_ in dargs))
+            dup = len({a_.split('=')[0] for a_ in dargs}) < len(dargs)
+            yield self.build_runs({fn: text, 'p.asm': src_d}, 'p.asm', fn, ['.'],
+                                  {'prog:command-line-symbols', 'prog:command-line-symbol-given-twice' if dup else 'prog:command-line-symbols-distinct'},
+                                  extra_argv=extra)
         # a search directory whose name begins with "~" is that directory, whatever HOME says
         for k, incdir in enumerate(['~/lib', '~lib', '~']):
             isa = gen_prog.layout_isa(16)
